@@ -195,7 +195,7 @@ def eval (env : Env) (g : Grammar) (max : Nat) :
     | .action name inner =>
       let start := st.pt
       match eval env g max fuel rule inner fr st with
-      | .ok st' fr' v true =>
+      | .ok st' fr' _ true =>
         match env.action name fr' (sliceFrom start st'.pt) with
         | .ret av none => .ok st' fr' av true
         | .ret av (some msg) => .ok (st'.addErr start.off rule (.action msg)) fr' av true
